@@ -39,7 +39,7 @@ package kernel
 //@       (StoreErrors(chain.node.persistStore) == old(StoreErrors(chain.node.persistStore)) ==> TxsRequeued(chain.node.persistStore, old(chain.CosiAggregators[k]).Snapshot))
 //@   ensures [untouched] forall k crypto.Hash :: {old(has(chain.CosiAggregators, k))} old(has(chain.CosiAggregators, k)) &&
 //@       (old(Young(chain.CosiAggregators[k], now)) || old(Complete(chain, chain.CosiAggregators[k]))) ==> has(chain.CosiAggregators, k) && chain.CosiAggregators[k] == old(chain.CosiAggregators[k])
-//@   ensures [only] forall h crypto.Hash :: {Queued(chain.node.persistStore, h)} Queued(chain.node.persistStore, h) != old(Queued(chain.node.persistStore, h)) ==>
+//@   ensures [only] forall h crypto.Hash :: {QueuedId(chain.node.persistStore, kvval(h))} Queued(chain.node.persistStore, h) != old(Queued(chain.node.persistStore, h)) ==>
 //@       !Finalized(chain.node.persistStore, h) && (exists k crypto.Hash :: old(has(chain.CosiAggregators, k)) && !old(Young(chain.CosiAggregators[k], now)) &&
 //@           !old(Complete(chain, chain.CosiAggregators[k])) && TxOf(old(chain.CosiAggregators[k]).Snapshot, h))
 //@   ensures [monotone] forall id mathint :: {QueuedId(chain.node.persistStore, id)} QueuedId(chain.node.persistStore, id) != old(QueuedId(chain.node.persistStore, id)) ==> QueuedId(chain.node.persistStore, id) == 1
@@ -55,7 +55,7 @@ package kernel
 //@       (StoreErrors(chain.node.persistStore) == old(StoreErrors(chain.node.persistStore)) ==> TxsRequeued(chain.node.persistStore, old(chain.CosiAggregators[k]).Snapshot))
 //@   loop 0 invariant [visited-untouched] forall k crypto.Hash :: {visited(k)} visited(k) && old(has(chain.CosiAggregators, k)) &&
 //@       (old(Young(chain.CosiAggregators[k], now)) || old(Complete(chain, chain.CosiAggregators[k]))) ==> has(chain.CosiAggregators, k)
-//@   loop 0 invariant [only] forall h crypto.Hash :: {Queued(chain.node.persistStore, h)} Queued(chain.node.persistStore, h) != old(Queued(chain.node.persistStore, h)) ==>
+//@   loop 0 invariant [only] forall h crypto.Hash :: {QueuedId(chain.node.persistStore, kvval(h))} Queued(chain.node.persistStore, h) != old(Queued(chain.node.persistStore, h)) ==>
 //@       !Finalized(chain.node.persistStore, h) && (exists k crypto.Hash :: old(has(chain.CosiAggregators, k)) && !old(Young(chain.CosiAggregators[k], now)) &&
 //@           !old(Complete(chain, chain.CosiAggregators[k])) && TxOf(old(chain.CosiAggregators[k]).Snapshot, h))
 //@   loop 0 invariant [monotone] forall id mathint :: {QueuedId(chain.node.persistStore, id)} QueuedId(chain.node.persistStore, id) != old(QueuedId(chain.node.persistStore, id)) ==> QueuedId(chain.node.persistStore, id) == 1
